@@ -22,4 +22,25 @@ mod verif_kani_value {
         assert!(printed(-0.0) == "-0.0", "negative zero not printed as -0.0");
         kani::cover!(true);
     }
+    fn printed32(f: f32) -> String {
+        let mut s = String::new();
+        f.write_toml_value(&mut s).unwrap();
+        s
+    }
+
+    // f32 is accepted by the same writer trait: its special cases must be TOML float literals too
+    // (`NaN` is not TOML; a bare `0` is an integer)
+    #[kani::proof]
+    #[kani::unwind(8)]
+    fn k11_f32_nan_and_zero() {
+        assert!(printed32(f32::NAN.copysign(1.0)) == "nan", "positive f32 NaN not printed as nan");
+        assert!(printed32(f32::NAN.copysign(-1.0)) == "-nan", "negative f32 NaN not printed as -nan");
+        assert!(printed32(0.0) == "0.0", "positive f32 zero not printed as 0.0");
+        assert!(printed32(-0.0) == "-0.0", "negative f32 zero not printed as -0.0");
+        kani::cover!(true);
+    }
+
+    // Dropped after measurement: 1.0f32 / 1.0f64 through the real float formatter (760 s unwinding
+    // failure / 900 s timeout).  The integral branch (`{self}.0`) is covered by the witness battery
+    // of the replay crate (verif_replay witness-k11f) only.
 }
